@@ -6,6 +6,8 @@
 (* router's verdict on each.                                               *)
 (*   honest    every reference path and the reversed delivered packet      *)
 (*   clock     last valid second / expired / timestamp in the future       *)
+(*   midpath   the walked packet at EVERY hop of its path (from the link   *)
+(*             and from inside the AS) x {future, valid, last, expired}    *)
 (*   linkdown  every non-empty set (size <= 2, and all) of on-path links   *)
 (*   ingress   the honest packet injected at every AS and interface        *)
 (*   corrupt   every single-field corruption (hop in/eg/exp/mac, segid,    *)
@@ -63,7 +65,7 @@ Clock(I) ==
      LET s == sd[1]  d == sd[2]  pk == MkPkt(p, s, d) IN
      {MkAtk("clock-last", TRUE, pk, s, 0, PathExpiry(p), {}, 0),
       MkAtk("clock-expired", TRUE, pk, s, 0, PathExpiry(p) + 1, {}, 1),
-      MkAtk("clock-future", FALSE, pk, s, 0, PktMaxTs(pk) - 1, {}, 1)}
+      MkAtk("clock-future", TRUE, pk, s, 0, PktMaxTs(pk) - 1, {}, 1)}
      : p \in BasePaths(I, sd)} : sd \in I.pairs}
 
 LinkDown(I) ==
@@ -72,6 +74,36 @@ LinkDown(I) ==
          sets == {D \in SUBSET ls : D # {} /\ (Cardinality(D) <= 2 \/ D = ls)}
      IN {MkAtk("linkdown", TRUE, pk, s, 0, PktMaxTs(pk), D, Cardinality(D)) : D \in sets}
      : p \in BasePaths(I, sd)} : sd \in I.pairs}
+
+\* Every clock class at EVERY point of a path: the packet as it is when it reaches the n-th AS of its honest
+\* traversal (header state as walked), injected there through the interface it would arrive on and from inside
+\* the AS, with the clock before the timestamp of the current segment / valid / in the last valid second / expired.
+\* Covers every hop index of every segment, in construction direction and against it (up, core, down pieces and
+\* the reversed delivered packet).
+RECURSIVE PreStates(_, _, _, _, _, _)
+PreStates(T, now, pkt, x, ifin, acc) ==
+  LET r == Step(T, AllUp(T), now, pkt, x, ifin)
+      a2 == Append(acc, [pkt |-> pkt, as |-> x, ifin |-> ifin])
+  IN IF r.k = "fwd" /\ Len(a2) <= 64 THEN PreStates(T, now, r.pkt, r.as, r.if, a2) ELSE a2
+MidPathOf(I, pk0, start) ==
+  LET now0 == PktMaxTs(pk0)
+      sts == PreStates(I.T, now0, pk0, start, 0, <<>>)
+      exp == PathExpiry(pk0.segs)
+  IN UNION {
+       LET st == sts[n]
+           cur == st.pkt.segs[st.pkt.ci]
+           clocks == {<<"future", cur.ts - 1, 1>>, <<"valid", now0, 0>>, <<"last", exp, 0>>, <<"expired", exp + 1, 1>>}
+       IN {[MkAtk("midpath-" \o c[1], TRUE, st.pkt, st.as, i, c[2], {}, c[3] + (IF i = st.ifin THEN 0 ELSE 1))
+              EXCEPT !.cls = RefClass(pk0.segs)]
+             : c \in clocks, i \in {st.ifin, 0}}
+       : n \in 1..Len(sts)}
+MidPath(I) ==
+  UNION {UNION {
+     LET s == sd[1]  d == sd[2]  pk == MkPkt(p, s, d)
+         f == Walk(I.T, AllUp(I.T), PktMaxTs(pk), pk, s, 0, <<>>)
+     IN MidPathOf(I, pk, s) \cup
+        (IF f.res.k = "deliver" THEN MidPathOf(I, Reverse(f.res.pkt), d) ELSE {})
+     : p \in (IF ATK_LEVEL >= 2 THEN I.ref[sd] ELSE TakeN(BasePaths(I, sd), 1))} : sd \in I.pairs}
 
 \* Link state changing WHILE the packet travels: sched[n] = set of links that are down when the n-th AS step is
 \* taken (the last entry stays in force).  One on-path link goes down, or comes up, before step n.
@@ -238,7 +270,7 @@ OneHop(I) ==
 
 -----------------------------------------------------------------------------
 Attacks(I) ==
-  Honest(I) \cup Clock(I) \cup LinkDown(I) \cup Toggle(I) \cup Ingress(I) \cup Corrupt(I) \cup Recomb(I) \cup Splice(I) \cup PeerMix(I) \cup OneHop(I)
+  Honest(I) \cup Clock(I) \cup MidPath(I) \cup LinkDown(I) \cup Toggle(I) \cup Ingress(I) \cup Corrupt(I) \cup Recomb(I) \cup Splice(I) \cup PeerMix(I) \cup OneHop(I)
 
 Verdict(I, a) ==
   IF a.oh THEN OhWalk(I.T, UpMap(I.T, a.down), a.now, a.pkt, a.at)
